@@ -72,6 +72,24 @@ def evaluate(contract, args: dict, allow_pre_fail=False):
     from pyvc.engine_native import call_fn, call_by_name_native
 
     obs = {"failed_clauses": [], "pre_ok": True}
+    if contract.native_oracle is not None:
+        fn, cls = raw_callable(contract.fn)
+
+        def run():
+            import inspect
+
+            try:
+                r = call_fn(fn, args, cls)
+                if inspect.isgenerator(r):
+                    r = list(r)
+                return ("return", r)
+            except Exception as e:  # pylint: disable=broad-except
+                obs["traceback"] = traceback.format_exc()[-1500:]
+                return ("raise", e)
+
+        obs["failed_clauses"] = list(contract.native_oracle(args, run))
+        obs["oracle"] = "native oracle of the contract (content-based)"
+        return obs
     for i, r in enumerate(contract.requires):
         try:
             ok = bool(call_by_name_native(r, args))
